@@ -35,6 +35,8 @@ type Engine struct {
 	files              []string
 	noInline           map[string]bool
 	specDeclaring      map[string]bool
+	structDecls        map[string]string
+	constLen           map[string]int64 // named slice terms with a constant length
 }
 
 const repoModule = "github.com/thanos-io/thanos"
@@ -59,7 +61,7 @@ func loadEngine(repo string, pkgPatterns []string, extraContractFiles []string) 
 	e := &Engine{prog: prog, pkgs: map[string]*ssa.Package{}, tpkgs: map[string]*packages.Package{}, contracts: map[string]*Contract{},
 		contractPkg: map[string]string{}, specFuncs: map[string]*SpecFunc{}, ghosts: map[string]*GhostField{}, heapSorts: map[string]string{},
 		typeIDs: map[string]int{}, inlineOverContract: map[string]bool{}, lines: map[string][]string{}, scan: map[string]int{},
-		noInline: map[string]bool{}, specDeclaring: map[string]bool{}}
+		noInline: map[string]bool{}, specDeclaring: map[string]bool{}, structDecls: map[string]string{}, constLen: map[string]int64{}}
 	for i, sp := range spkgs {
 		if sp == nil {
 			continue
@@ -411,6 +413,7 @@ func (e *Engine) verifyFunction(key string) (res *FuncResult) {
 		}
 	}()
 	e.inlineStack = nil
+	e.constLen = map[string]int64{}
 	f := newFrame(c, fn)
 	c.rootFrame = f
 	f.top = true
@@ -440,8 +443,13 @@ func (e *Engine) verifyFunction(key string) (res *FuncResult) {
 	}
 	c.assume(ge(c.nalloc(f.heap), tZero))
 	env := f.baseEnv(f.heap)
+	var deferred []Let
 	for _, l := range ct.Lets {
-		v := env.eval(l.E)
+		v, ok := tryEval(env, l.E)
+		if !ok {
+			deferred = append(deferred, l)
+			continue
+		}
 		v.T = c.name("let."+l.Name, v.T)
 		f.lets[l.Name] = v
 		env.vars[l.Name] = v
@@ -452,6 +460,7 @@ func (e *Engine) verifyFunction(key string) (res *FuncResult) {
 	}
 	for _, rq := range ct.Requires {
 		c.assume(f.evalClause(env, rq))
+		f.noteParamTypes(rq.E, env)
 	}
 	// touch the heap keys mentioned by postconditions (so that old() refers to entry constants)
 	func() {
@@ -474,10 +483,11 @@ func (e *Engine) verifyFunction(key string) (res *FuncResult) {
 		retConds = append(retConds, r.cond)
 		penv := f.baseEnv(r.heap)
 		bindResults(penv, f, ct, fn.Signature, r.vals)
+		for _, l := range deferred {
+			penv.vars[l.Name] = penv.eval(l.E)
+		}
 		for j, en := range ct.Ensures {
-			g := f.evalClause(penv, en)
-			ob := c.oblige("ensures", fmt.Sprintf("%s#ensures%d@ret%d", short, j+1, i+1), r.cond, g, f.pos(r.pos), en.Text)
-			ob.Models = f.modelQueries()
+			f.obligeClause("ensures", fmt.Sprintf("%s#ensures%d@ret%d", short, j+1, i+1), penv, en, r.cond, f.pos(r.pos), true)
 		}
 		if ct.HasMod {
 			f.frameCheck(ct, r, i+1)
